@@ -182,7 +182,7 @@ static void thr_mem(void *addr, unsigned size, int wr, void *pc) {
     }
     ++t->accesses;
     uint8_t *a = (uint8_t *)addr;
-    if (!(a >= t->stack_lo && a < t->stack_hi) && !in_exe_tls(a)) record_access(t, (uintptr_t)addr, size ? size : 1, wr, pc);   // stack and thread-local storage are private to the task
+    if (!(a >= t->stack_lo && a < t->stack_hi) && !in_thread_local_storage(a)) record_access(t, (uintptr_t)addr, size ? size : 1, wr, pc);   // stack and thread-local storage are private to the task
     if (t->quantum && --t->quantum == 0) { swapcontext(&t->ctx, &g_sched_ctx); }
 }
 
